@@ -21,6 +21,8 @@ FAMILIES = [
     ("Sat3", "leftcycle", ["direct", "earley", "cky"]),
     ("Bool", "leftcycle", ["direct", "earley", "cky"]),
     ("Sat3", "ring", ["direct", "earley", "cky"]),
+    # signed real weights (a commutative ring): partial sums that are exactly zero before a later contribution arrives
+    ("Rat", "signed", ["direct", "earley", "cky"]),
 ]
 
 
@@ -36,11 +38,21 @@ def generate(rng, tier, shard, nshards):
     for gi in range(n_grammars):
         srn, shape, parsers = FAMILIES[gi % len(FAMILIES)]
         R = gops.SR[srn]
-        g = fam.rand_cfg(rng, R, shape=shape, nN=rng.choice([2, 3, 3, 4]), nrules=rng.choice([3, 5, 6]))
+        if shape == "signed":
+            g0 = fam.rand_cfg(rng, R, shape="acyclic", nN=rng.choice([2, 3, 3]), nrules=rng.choice([4, 6, 7]), dup=0.5)
+            g = g0.spawn()
+            seen = set()
+            for r in g0.rules:                 # a repeated rule comes back with the opposite weight: exact cancellation
+                k = (r.head, r.body)
+                g.add(-r.w if (k in seen or rng.random() < 0.25) else r.w, r.head, *r.body)
+                seen.add(k)
+            shape = "acyclic"
+        else:
+            g = fam.rand_cfg(rng, R, shape=shape, nN=rng.choice([2, 3, 3, 4]), nrules=rng.choice([3, 5, 6]))
         variants = [("str", g)]
         if gi % 3 == 0:
             variants.append((rng.choice(["int", "tuple", "mixed"]), fam.permuted(g, rng)))
-        feat = fam.feature_key(g)
+        feat = fam.feature_key(g) + ("+signed-weights" if any(r.w < 0 for r in g.rules if srn == "Rat") else "")
         for names, gv in variants:
             G, _ = cfg_proj(gv)
             allstr = [[str(x) for x in s] for s in fam.strings(gv.V, L if len(G["rules"]) <= 5 else 3)]
